@@ -37,7 +37,9 @@ m = {"version": 1,
      "hooks": {"guard": "prometheus_verif", "enable": "none needed: static analysis reads the source as it is (no hooks are compiled in)",
                "baseline_off_cmd": "cd /repo && cargo nextest run --workspace --no-fail-fast --offline  (fallback: cargo test --workspace --no-fail-fast --offline; no hooks exist, so guard-off is the plain build)", "source_commits": [], "add_only": True},
      "engines": [{"name": "mirfacts", "path": "driver/", "serves_properties": allp, "kind_free_text": "rustc_private driver dumping resolved MIR + item tables of /repo's current tree as JSON facts (no library code is executed)"},
-                 {"name": "pvrules", "path": "rules/", "serves_properties": allp, "kind_free_text": "python rule library over MIR facts: CFG/dominators, data-flow terms, path rules, call graph, cross-config diff"}],
+                 {"name": "pvrules", "path": "rules/", "serves_properties": allp, "kind_free_text": "python rule library over MIR facts: CFG/dominators, data-flow terms, path rules, call graph, cross-config diff"},
+                 {"name": "witness", "path": "harness/witness/", "serves_properties": ["C01", "C12", "C18"], "kind_free_text": "compile-fail witnesses with compiling twins, decided by rustc (cargo +nightly test --doc; twins are no_run, nothing is executed)"},
+                 {"name": "harnesses", "path": "harness/", "serves_properties": ["C01", "C07", "C11", "C12", "C17", "C18", "C19", "C20"], "kind_free_text": "harness crates whose MIR is analysed: forms (C20 macro forms with hygiene decoys), smgen (generated static-metric declarations, C19), smreg (register_static_*/auto_flush_from!, C19), fixtures (positive controls for zero-count rules)"}],
      "checks": checks, "not_applicable": na,
      "notes": "All checks are static analyses of /repo's current working tree (MIR facts re-extracted on every run, nonce-checked). Genuine defects: known_findings.json. See DESIGN.md."}
 json.dump(m, open(os.path.join(HERE, "MANIFEST.json"), "w"), indent=1)
